@@ -17,6 +17,8 @@
 #include <string>
 #include <unordered_set>
 #include <vector>
+#include <sys/wait.h>
+#include <unistd.h>
 
 namespace vf
 {
@@ -466,7 +468,20 @@ namespace vf
         {
             JV v = readJson(a.replay);
             const JV &r = v.has("replay") ? v["replay"] : v;
-            bool still = h.replay ? h.replay(r) : false;
+            // the recorded case may crash or hang: run it in a child; death of the child means "still failing"
+            fflush(stdout);
+            pid_t pid = fork();
+            if (pid == 0)
+            {
+                bool still = h.replay ? h.replay(r) : false;
+                fflush(stdout);
+                _exit(still ? 1 : 0);
+            }
+            int st = 0;
+            waitpid(pid, &st, 0);
+            bool still = !(WIFEXITED(st) && WEXITSTATUS(st) == 0);
+            if (WIFSIGNALED(st))
+                printf("REPLAY: child killed by signal %d\n", WTERMSIG(st));
             printf(still ? "REPLAY: fails again\n" : "REPLAY: passes\n");
             return still ? 1 : 0;
         }
